@@ -48,6 +48,7 @@ EXC_OWNERS = {
     "add_links": ("C01", "C02", "C03", "C06", "C19"),
     "batch": ("C01", "C02", "C03", "C06", "C19"),
     "create_we": ("C04", "C12", "C13"),
+    "create_many": ("C04", "C12", "C13"),
     "delete_we": ("C04", "C13"),
     "add_prefix": ("C04", "C13"),
     "remove_prefix": ("C04", "C13"),
@@ -173,7 +174,7 @@ def compare_outcome(ctx, op, observed, expected, note):
             ctx.fail("report_pages", d, OP_OWNERS["report_pages"])
         oi = [x[0] for x in observed[2]]
         ei = [x[0] for x in expected[2]]
-        explicit = k == "create_we"
+        explicit = k in ("create_we", "create_many")
         if len(oi) == len(ei) and oi != ei:
             ctx.fail("report_we_ids", d, ("C12", "C04") if explicit else ("C12", "C06"))
         ctx.fail("report_we_prefixes", d, ("C04",) if explicit else ("C06",))
